@@ -313,10 +313,24 @@ func (p *Path) raceCheck(knownID string, specs [][3]string) {
 				reported[key] = true
 				p.note(fmt.Sprintf("data race on %s: thread %d %s in %s (%s) / thread %d %s in %s (%s)", a.field, a.thread, rw(a.write), a.site, a.api, b.thread, rw(b.write), b.site, b.api))
 				saved := p.known
+				// A race is attributed to a listed finding only if exactly one of the two accesses is made inside an
+				// API method the finding names: two accesses that both come from such a method (e.g. two restore
+				// helper goroutines, which the read operation lock serialises on the unchanged tree) are not what
+				// the finding describes.
+				matchedA, matchedB, id := false, false, ""
 				for _, sp := range specs {
-					if sp[1] == a.field && (strings.Contains(a.api, sp[2]) || strings.Contains(b.api, sp[2])) && p.X.Known[sp[0]] {
-						p.known = sp[0]
+					if sp[1] != a.field || !p.X.Known[sp[0]] {
+						continue
 					}
+					if strings.Contains(a.api, sp[2]) {
+						matchedA, id = true, sp[0]
+					}
+					if strings.Contains(b.api, sp[2]) {
+						matchedB, id = true, sp[0]
+					}
+				}
+				if matchedA != matchedB {
+					p.known = id
 				}
 				p.raceViolation("C11.no_data_race")
 				p.known = saved
